@@ -172,7 +172,8 @@ def build(desc):
              other extras), "fcomment": bytes, "system": int, "vmade": int, "eattr": int, "date": int,
              "time": int, "enc": None | ("zc", pw) | ("aes", version, strength, pw), "crc": override, "lextra_tail": bytes,
              "lname": bytes (local name override), "flags_extra": int,
-             "lz64_last": bool (position of the LOCAL ZIP64 record; default: as z64_last)}"""
+             "lz64_last": bool (position of the LOCAL ZIP64 record; default: as z64_last),
+             "aes_first": bool (the AE-x record precedes the entry's other extra records; default: it follows them)}"""
     out = bytearray(desc.get("prefix", b""))
     base = len(out)           # offsets are relative to the start of the archive proper
     ents = desc["entries"]
@@ -212,7 +213,7 @@ def build(desc):
         off = len(out) - base
         # local header
         lz64 = e.get("lz64", False)
-        lextra = list(e.get("lextra", [])) + aes_extra
+        lextra = (aes_extra + list(e.get("lextra", []))) if e.get("aes_first") else (list(e.get("lextra", [])) + aes_extra)
         if lz64:
             z = (1, struct.pack("<QQ", 0 if dd else usize, 0 if dd else csize))
             lextra = lextra + [z] if e.get("lz64_last", e.get("z64_last")) else [z] + lextra
@@ -256,7 +257,7 @@ def build(desc):
         if "off" in forced or off32 > S32 - 1:
             zf += struct.pack("<Q", r["off"])
             off32 = S32
-        cextra = list(e.get("cextra", [])) + r["aes_extra"]
+        cextra = (r["aes_extra"] + list(e.get("cextra", []))) if e.get("aes_first") else (list(e.get("cextra", [])) + r["aes_extra"])
         if zf:
             cextra = cextra + [(1, zf)] if e.get("z64_last") else [(1, zf)] + cextra
         cx = tlv(cextra)
